@@ -35,6 +35,8 @@ from .procs import make_processor
 
 _st: dict = {}
 LEAF_COLS = {"T1": ("a", "b", "c"), "T2": ("a", "d"), "T3": ("a", "b", "c"), "L": ("a", "b", "c")}
+# relations the SQL engine makes itself: a statically empty one and the join identity
+ENGINE_MADE = {"Z": ("a", "b", "c"), "I": ()}
 
 
 def _world():
@@ -79,6 +81,12 @@ def _rop(rng, m: Member, fresh: list):
             return None
         return {"o": "calc", "tag": fresh.pop(0), "e": e}
     if k < 0.3:
+        r = rng.random()
+        if r < 0.25 and len(cols) > 3:
+            return {"o": "proj", "cols": sorted(c for c in cols if c in ("a", "b", "c"))}     # back to a leaf's columns
+        if r < 0.5 and len(cols) > 1:
+            drop = rng.choice(sorted(cols))
+            return {"o": "proj", "cols": sorted(c for c in cols if c != drop)}               # hide exactly one column
         return {"o": "proj", "cols": sorted(c for c in cols if rng.random() < 0.75)}
     if k < 0.5:
         return {"o": "sel", "p": rpred(rng, cols, 2)}
@@ -160,13 +168,23 @@ def run_program(seed: int, out: dict):
 
     for name in ("T1", "L", "T2", "T3"):
         add_leaf(name)
+    n_leaves = 4
+    if rng.random() < 0.35:
+        # engine-made members: a doomed (statically empty) relation and the join identity
+        env["Z"] = []
+        env["I"] = [{}]
+        members.append(Member(eng["sql"].make_doomed_relation(build.tags(ENGINE_MADE["Z"]), ["statically empty"], name="Z"), ENGINE_MADE["Z"], {"Z"}))
+        steps.append({"k": "leaf", "name": "Z", "cols": list(ENGINE_MADE["Z"])})
+        members.append(Member(eng["sql"].make_join_identity_relation(name="I"), (), {"I"}))
+        steps.append({"k": "leaf", "name": "I", "cols": []})
+        n_leaves = 6
     fresh = ["e", "f", "g", "h"]
     proc = make_processor(conn, eng["sql"])
     n_steps = rng.randint(8, 16)
     n_mat = 0
     try:
         tries = 0
-        while len(steps) < 4 + n_steps and tries < 80:
+        while len(steps) < n_leaves + n_steps and tries < 80:
             tries += 1
             # prefer recent members, so that programs get deep
             i = len(members) - 1 - min(int(rng.expovariate(0.5)), len(members) - 1)
@@ -179,9 +197,10 @@ def run_program(seed: int, out: dict):
                         continue
                     total = o.pop("_total", False)
                     opts = {}
-                    if rng.random() < 0.35 and not (o["o"] == "proj" and m.dedup):
-                        opts = {"preferred_engine": eng[rng.choice(["sql", "it1", "it2"])], "backtrack": rng.random() < 0.8,
-                                "transfer": rng.random() < 0.4, "require_preferred_engine": rng.random() < 0.3}
+                    # trees that already span engines get preferred-engine requests more often (that is where backtracking acts)
+                    if rng.random() < (0.6 if m.xfer else 0.2) and not (o["o"] == "proj" and m.dedup):
+                        opts = {"preferred_engine": eng[rng.choice(["sql", "it1", "it2"])], "backtrack": rng.random() < 0.85,
+                                "transfer": rng.random() < 0.35, "require_preferred_engine": rng.random() < 0.25}
                     try:
                         rel = build.unary_op(o).apply(m.rel, **opts)
                     except Exception as exc:  # noqa: BLE001
@@ -213,7 +232,7 @@ def run_program(seed: int, out: dict):
                     x = members[j]
                     members.append(Member(rel, m.cols, m.leaves | x.leaves, m.dedup or x.dedup, m.xfer or x.xfer, False, max(m.depth, x.depth) + 1, True))
                     steps.append({"k": "chain", "i": i + 1, "j": j + 1})
-                elif r < 0.78:
+                elif r < (0.85 if m.eng != "sql" else 0.78):
                     cands = [j for j, x in enumerate(members) if x.eng == "sql" and not (x.leaves & m.leaves)]
                     if not cands:
                         continue
@@ -226,6 +245,9 @@ def run_program(seed: int, out: dict):
                     try:
                         if hasmx:
                             rel = ops.Join(build.pred(p), max_columns=frozenset(build.tags(mx))).apply(m.rel, x.rel)
+                        elif m.eng == "sql" and rng.random() < 0.2:
+                            # the same join with the LEFT operand held fixed and the right one as the target
+                            rel = ops.Join(build.pred(p)).partial(m.rel, is_lhs=True).apply(x.rel)
                         elif m.eng == "sql":
                             rel = m.rel.join(x.rel, None if p == {"p": "lit", "v": True} else build.pred(p))
                         else:
@@ -277,10 +299,10 @@ def run_program(seed: int, out: dict):
                 V(["C08", "C03", "C02"], f"a valid step of a random pool program raised {type(exc).__name__}: {str(exc)[:300]}", on_member=i + 1)
                 return None
         # ---- observations: the last member and two of the deeper ones
-        deep = sorted(range(4, len(members)), key=lambda k: -members[k].depth)
+        deep = sorted(range(n_leaves, len(members)), key=lambda k: -members[k].depth)
         chosen = []
         for k in [len(members) - 1] + deep[:6]:
-            if k >= 4 and k not in chosen:
+            if k >= n_leaves and k not in chosen:
                 chosen.append(k)
         chosen = chosen[:3]
         obs = []
